@@ -183,7 +183,7 @@ func init() {
 func (ld *Loaded) totalityVC(name, memKind, ioKind string, withIntr bool) (vc *VC, err error) {
 	defer func() {
 		if r := recover(); r != nil {
-			if u, ok := r.(Unsupported); ok {
+			if u, ok := asUnsupported(r); ok {
 				err = fmt.Errorf("UNSUPPORTED %s (%s)", u.Msg, name)
 				return
 			}
@@ -367,7 +367,7 @@ func (ld *Loaded) addressTaken() []*ssa.Function {
 func (ld *Loaded) loopBounded(f *ssa.Function) (why string) {
 	defer func() {
 		if r := recover(); r != nil {
-			if u, ok := r.(Unsupported); ok {
+			if u, ok := asUnsupported(r); ok {
 				why = u.Msg
 				return
 			}
